@@ -22,6 +22,7 @@ fn sized_jobs(prop: &str, max_ops: usize, cases: u64, flavours: &[&'static str])
         v.push(jobb(sized_engine("tok16", prop, max_ops), cases / 2, fl));
         v.push(jobb(sized_engine("tok64", prop, max_ops), cases / 4, fl));
         v.push(jobb(sized_engine("tokz", prop, max_ops), cases / 4, fl));
+        v.push(jobb(sized_engine("plain8", prop, max_ops), cases / 4, fl));
     }
     v
 }
@@ -74,6 +75,9 @@ pub fn plan(prop: &str, tier: Tier) -> Option<Plan> {
             vec![
                 jobb(sched_engine("tok8", "C02", 24), if q { 60_000 } else { 3_000_000 }, "all"),
                 jobb(sched_engine("tok16", "C02", 24), if q { 12_000 } else { 500_000 }, "all"),
+                jobb(sched_engine("plain8", "C02", 24), if q { 12_000 } else { 500_000 }, "all"),
+                jobb(sched_engine("plain16", "C02", 24), if q { 6_000 } else { 250_000 }, "all"),
+                jobb(sched_engine("tokz", "C02", 24), if q { 6_000 } else { 250_000 }, "all"),
                 jobb(sched_engine("tok8", "C02", 24), if q { 12_000 } else { 500_000 }, "nostd"),
             ],
         ),
@@ -120,8 +124,13 @@ pub fn plan(prop: &str, tier: Tier) -> Option<Plan> {
         "C05" => (
             "exploration",
             "proptest-generated points of a static matrix: 8 header shapes x 12 element shapes (size 0..64, alignment 1..64, incl. zero-sized, padded and over-aligned) x length in {0,1,2,3,4,5,7,8,9,15,16,17,31,40} x constructor (new, From<T>, From<Box>, Default, UniqueArc::new, new_uninit+write, from_header_and_iter/vec/slice, from_header_and_uninit_slice, ThinArc forms, From<Vec>/&[T], collect exact/inexact, new_uninit_slice) x extra clones x release path (drop as Arc / OffsetArc / ArcUnion first / second / UniqueArc, after from_raw, after a dyn cast, after unsizing, after header erasure, try_unwrap, into_inner, RefCnt). Observed oracle: heap_ptr = block start, block alignment >= max(8, align_of_val), value address aligned, value behind the count word and inside the block, red zones intact, dealloc layout == alloc layout (checked by the tracking allocator), exactly one free, nothing left. Non-trivial: a header or element that is over-aligned (>8), zero-sized or padded, released through a path other than dropping the constructing handle.".into(),
-            vec!["8 x 12 sampled shapes rather than every size 0..64 x alignment 1..64".into(), "overflow-adjacent lengths are exercised in child processes (see the C05 overflow job)".into()],
-            vec![job(MatrixEngine::new("C05"), if q { 60_000 } else { 2_000_000 }, "all"), job(MatrixEngine::new("C05"), if q { 20_000 } else { 600_000 }, "nostd")],
+            vec!["8 x 12 sampled shapes rather than every size 0..64 x alignment 1..64".into(), "overflow-adjacent lengths (usize::MAX, usize::MAX/size +- k, isize::MAX/size +- k, 2^40) for new_uninit_slice, from_header_and_uninit_slice and iterators claiming the length run in child processes: the outcome must be a refusal panic or the allocation-error abort, never a returned handle in a block shorter than needed (the tracking allocator refuses requests above 2^36 bytes)".into()],
+            vec![
+                job(MatrixEngine::new("C05"), if q { 60_000 } else { 2_000_000 }, "all"),
+                job(MatrixEngine::new("C05"), if q { 20_000 } else { 600_000 }, "nostd"),
+                job(eng::ctor::OverflowEngine, if q { 320 } else { 6000 }, "all"),
+                job(eng::ctor::OverflowEngine, if q { 160 } else { 3000 }, "nostd"),
+            ],
         ),
         "C11" => (
             "exploration",
